@@ -190,6 +190,10 @@ def monitor(c, out):
                 why = "its Bloom filter contains this daemon's server id"
             if why:
                 return ("source accepted for synchronisation although " + why, where)
+            if st == 1 and sid in ids:
+                # known finding: the own-address test is skipped for stratum-1 sources
+                return ("stratum-1 source at one of this daemon's own addresses (source id %d) accepted for synchronisation" % sid,
+                        dict(where, **{"class": "C33-self-stratum1"}))
         if bloom == 2 and contains != 1:
             return ("filter does not report the server id that was added to it", where)
         return None
@@ -211,6 +215,9 @@ def monitor(c, out):
                 why = "it reports reference id %d, one of this daemon's addresses, at stratum %d" % (refid, st)
             if why:
                 return ("controller told the source at %s is usable although %s" % (addr, why), where)
+            if st == 1 and sid in ids:
+                return ("controller told the stratum-1 source at %s, one of this daemon's own addresses, is usable" % addr,
+                        dict(where, **{"class": "C33-self-stratum1"}))
         if mode >= 1 and t_flag == 1:
             return ("a source that never answered is reported usable", where)
         if mode == 1:
@@ -248,6 +255,9 @@ def main():
     cases.append(("A", 16, ["192.168.1.1"], 2, "ip:10.0.0.1", v4id("192.168.1.1"), 1, 0))
     cases.append(("A", 16, ["10.0.0.2", "192.168.1.1"], 3, "ip:203.0.113.7", v4id("192.168.1.1"), 255, 1))
     cases.append(("E", 16, ["192.168.1.1"], [(1, "10.0.0.1", 2, 2, v4id("192.168.1.1"))], [[(1, 2)]]))
+    # witnesses of the known finding C33-self-stratum1 (own-address test skipped for stratum 1)
+    cases.append(("A", 16, ["192.168.1.1"], 1, "ip:192.168.1.1", KISS["GPS"], 1, 0))
+    cases.append(("E", 16, ["10.0.0.2", "192.168.1.1"], [(1, "192.168.1.1", 2, 1, KISS["GPS"])], [[(1, 2)]]))
     # boundary grid: stratum x local stratum, reach, bloom, loop kinds
     for ls in (1, 2, 16, 17, 255):
         for st in sorted({0, 1, 2, ls - 1, ls, ls + 1, 16, 255} & set(range(256))):
@@ -317,8 +327,8 @@ def main():
         "hand-written model of accept_synchronization / from_used_sources / update_used_sources (coq/Model/Stratum.v), tied to the code "
         "by the correspondence above; ReferenceId::from_ip is an oracle (values read back; IPv4 checked against the octets)",
         "Bloom membership enters the accept model as a boolean (bit-level facts: C34); the advertised filter is checked for our own id only",
-        "reading: 'this daemon itself' is tested for sources of stratum other than 1 only (as the code does; C33_self_stratum1_refuted "
-        "exhibits the exception)",
+        "known finding C33-self-stratum1: the own-address test is skipped for stratum-1 sources (C33_self_stratum1_refuted); the monitor "
+        "reports such accepted inputs under that class",
     ]
     return c.finish()
 
